@@ -102,7 +102,7 @@ class RepoSim:
         elif k == "gitmv":
             fx.git("mv", "--", self.id2path[a["p"]], self.id2path[a["q"]])
             self.wt[a["q"]] = self.wt[a["p"]]; self.wt[a["p"]] = 0
-            self.idx[a["q"]] = self.wt[a["q"]]; self.idx[a["p"]] = 0
+            self.idx[a["q"]] = self.idx[a["p"]]; self.idx[a["p"]] = 0
             self.events.append({"ev": "gitmv", "p": a["p"], "q": a["q"]})
         elif k == "stage":
             fx.git("add", "-A", "--", self.id2path[a["p"]])
@@ -225,8 +225,8 @@ def random_actions(rng, ids, ignored, n, maxc=30):
         elif r < 0.38:
             q = rng.choice(ids)
             if q != p and wt[p] != 0 and wt[q] == 0 and ((p in ignored) == (q in ignored)):
-                if rng.random() < 0.5 and idx[p] != 0 and idx[q] == 0 and p not in ignored and idx[p] == wt[p]:
-                    acts.append({"a": "gitmv", "p": p, "q": q}); wt[q] = wt[p]; wt[p] = 0; idx[q] = wt[q]; idx[p] = 0
+                if rng.random() < 0.5 and idx[p] != 0 and idx[q] == 0 and p not in ignored:
+                    acts.append({"a": "gitmv", "p": p, "q": q}); wt[q] = wt[p]; wt[p] = 0; idx[q] = idx[p]; idx[p] = 0
                 else:
                     acts.append({"a": "move", "p": p, "q": q}); wt[q] = wt[p]; wt[p] = 0
         elif r < 0.48 and p not in ignored and idx[p] != wt[p]:
